@@ -107,6 +107,12 @@ func (x *TSCtx) Const(v ssa.Value) (constant.Value, bool) {
 	return constOf(v, x.Env)
 }
 
+// Empty reports whether the current path knows collection v to be empty (a len == 0 or == nil test was taken).
+func (x *TSCtx) Empty(v ssa.Value) bool {
+	k, ok := lensLookup(x.lens, StripConv(v))
+	return ok && k == 1
+}
+
 // Known returns what the current path knows about error value v.
 func (x *TSCtx) Known(v ssa.Value) (ErrK, bool) {
 	k, ok := x.known[v]
@@ -351,6 +357,11 @@ func (t *TS) summarise(fn *ssa.Function, entry string, env TSEnv, stack []ssa.Ca
 						} else {
 							q.known[v] = KNil
 						}
+					} else if ok {
+						// a nil slice is an empty one
+						if _, isSl := v.Type().Underlying().(*types.Slice); isSl && (ti == 0) != nonNilOnTrue {
+							q.lens[StripConv(v)] = 1
+						}
 					}
 					phiEdge(b, to, &q)
 					x.tr, x.known = q.tr, q.known
@@ -475,7 +486,7 @@ func (t *TS) evalCond(cond ssa.Value, ps *pstate, env TSEnv) (bool, bool) {
 		return false, false
 	}
 	if coll, zeroOnTrue, ok := lenZeroTest(cond); ok {
-		if k, known := ps.lens[coll]; known {
+		if k, known := lensLookup(ps.lens, coll); known {
 			return (k == 1) == zeroOnTrue, true
 		}
 		return false, false
@@ -662,9 +673,9 @@ func (t *TS) Summarise(x *TSCtx, site ssa.CallInstruction, callee *ssa.Function,
 					env.Err[p] = KNonNil
 				}
 			}
-			if k, ok := x.lens[StripConv(args[i])]; ok {
+			if k, ok := lensLookup(x.lens, StripConv(args[i])); ok {
 				env.Len[p] = k
-			} else if k, ok := x.lens[args[i]]; ok {
+			} else if k, ok := lensLookup(x.lens, args[i]); ok {
 				env.Len[p] = k
 			}
 		}
@@ -746,4 +757,60 @@ func lenZeroTest(cond ssa.Value) (coll ssa.Value, zeroOnTrue bool, ok bool) {
 		return c, false, true
 	}
 	return nil, false, false
+}
+
+// lensLookup finds what the path knows about the emptiness of collection v: under v itself, or under another load
+// of the same field of the same object (go/ssa does not share loads) when the function never stores that field.
+func lensLookup(m map[ssa.Value]int8, v ssa.Value) (int8, bool) {
+	if k, ok := m[v]; ok {
+		return k, true
+	}
+	for other, k := range m {
+		if sameFieldLoad(other, v, 4) && !storesField(v) {
+			return k, true
+		}
+	}
+	return 0, false
+}
+
+func sameFieldLoad(a, b ssa.Value, depth int) bool {
+	if a == b {
+		return true
+	}
+	if depth == 0 {
+		return false
+	}
+	ua, ok1 := a.(*ssa.UnOp)
+	ub, ok2 := b.(*ssa.UnOp)
+	if !ok1 || !ok2 || ua.Op != token.MUL || ub.Op != token.MUL {
+		return false
+	}
+	fa, ok1 := ua.X.(*ssa.FieldAddr)
+	fb, ok2 := ub.X.(*ssa.FieldAddr)
+	if !ok1 || !ok2 || fa.Field != fb.Field || !types.Identical(fa.X.Type(), fb.X.Type()) {
+		return false
+	}
+	return sameFieldLoad(fa.X, fb.X, depth-1)
+}
+
+// storesField: the function holding load v contains a store to the same field (of any object of that type).
+func storesField(v ssa.Value) bool {
+	u, ok := v.(*ssa.UnOp)
+	if !ok {
+		return true
+	}
+	fa, ok := u.X.(*ssa.FieldAddr)
+	if !ok || u.Parent() == nil {
+		return true
+	}
+	for _, b := range u.Parent().Blocks {
+		for _, in := range b.Instrs {
+			if st, isSt := in.(*ssa.Store); isSt {
+				if sa, isFA := st.Addr.(*ssa.FieldAddr); isFA && sa.Field == fa.Field && types.Identical(sa.X.Type(), fa.X.Type()) {
+					return true
+				}
+			}
+		}
+	}
+	return false
 }
